@@ -439,6 +439,8 @@ def run(tier, seed):
     from props import zoo
     par.pmap(work_zoo, zoo.names(tier), stats=st, chunk=6)
     par.pmap(work_broken, broken_tasks(tier), stats=st)
+    from props import faultinv as _FI
+    par.pmap(_FI.work, _FI.tasks(), extra=(('status',),), stats=st, chunk=6)
     par.pmap(work_repeats, repeat_tasks(), stats=st, chunk=4)
     par.pmap(work_policy, policy_cases(), stats=st, procs=1)
     vcases = []
